@@ -1778,17 +1778,30 @@ pub fn check_topk(
     }
     let gs = full[fpos[got[i].0.as_str()]].1 as f64;
     let es = full[i].1 as f64;
-    if strict_ties && full[fpos[got[i].0.as_str()]].1.to_bits() == full[i].1.to_bits() && got[i].1.to_bits() == full[i].1.to_bits() {
-      // scores are reproducible bit for bit (no leaf sums >= 3 addends): equal scores must be
-      // resolved by (segment, doc) order, i.e. exactly as in the exhaustive list
+    if strict_ties {
+      // scores are reproducible bit for bit (no leaf sums >= 3 addends): no tolerance is needed, the list
+      // must be exactly the first entries of the exhaustive list
+      let mut j = 0usize;
+      let mut subseq = true;
+      for g in got.iter() {
+        while j < full.len() && full[j].0 != g.0 {
+          j += 1;
+        }
+        if j == full.len() {
+          subseq = false;
+          break;
+        }
+        j += 1;
+      }
+      let min_got = got.last().map(|g| g.1 as f64).unwrap_or(f64::NEG_INFINITY);
+      let missing: Vec<Value> = full[..expect_len].iter().filter(|(id, _)| !seen.contains(id.as_str())).take(5).map(|(id, s)| json!({"id": id, "exhaustive_score": s})).collect();
+      let better = full.iter().any(|(id, s)| !seen.contains(id.as_str()) && (*s as f64) > min_got && !approx(*s as f64, min_got, rel));
       return Err(TopkDiff {
-        kind: "tie-not-resolved-by-segment-doc-order".into(),
-        detail: json!({"position": i, "got": got[i], "expected": full[i], "loc_got": loc.get(&got[i].0).map(|l| [l.0, l.1]), "loc_expected": loc.get(&full[i].0).map(|l| [l.0, l.1])}),
-        only_omits_better: benign && !seen.contains(full[i].0.as_str()) && {
-          let min_got = got.last().map(|g| g.1 as f64).unwrap_or(f64::NEG_INFINITY);
-          full.iter().any(|(id, s)| !seen.contains(id.as_str()) && (*s as f64) > min_got && !approx(*s as f64, min_got, rel))
-        },
-        only_omits: benign && !seen.contains(full[i].0.as_str()),
+        kind: if subseq { "omits-qualifying-documents(bit-reproducible-scores)".into() } else { "tie-or-order-differs(bit-reproducible-scores)".into() },
+        detail: json!({"position": i, "got": got[i], "expected": full[i], "missing_from_result": missing,
+          "loc_got": loc.get(&got[i].0).map(|l| [l.0, l.1]), "loc_expected": loc.get(&full[i].0).map(|l| [l.0, l.1])}),
+        only_omits_better: benign && subseq && better,
+        only_omits: benign && subseq,
       });
     }
     if !approx(gs, es, rel) {
